@@ -162,6 +162,9 @@ type Op struct {
 	Kind string
 	// Model, if set, steps the reference model in w.Aux for this op applied at log index idx.
 	Model func(aux any, idx uint64)
+	// Exec, if set, replaces Build: a composite action that issues any number of raft commands
+	// through w.ApplyReq (e.g. a peer stream update handled by the real replication code).
+	Exec func(w *World) (res string, enabled bool)
 }
 
 func Encode(t structs.MessageType, req any) ([]byte, error) {
@@ -179,6 +182,9 @@ type RawLog []byte
 
 // Apply encodes and applies one command at the next log index. Returns the normalized result.
 func (w *World) Apply(op Op) (res string, enabled bool) {
+	if op.Exec != nil {
+		return op.Exec(w)
+	}
 	t, req, ok := op.Build(w)
 	if !ok {
 		return "", false
